@@ -78,7 +78,7 @@ def run_config(rep, binary, name, params, mode, max_states=None, rnd=None, conc_
                 rnd.shuffle(probes)
             if mode == "edges":
                 probes_of[key] = [e for e in probes if e.get("rc", 0) not in (0, 1)]
-            conc = Conc(conc_ids[nstates % len(conc_ids)])
+            conc = Conc(conc_ids[nstates % len(conc_ids)]); conc.report_stuck = (rep.prop == "C04")
             for e in h + probes:
                 opcov["%s:%s" % (e["op"], e.get("rc", "-"))] += 1
             jobs.append(Job("state", h + probes, s, conc, key, len(probes)))
@@ -95,7 +95,7 @@ def run_config(rep, binary, name, params, mode, max_states=None, rnd=None, conc_
         h, s = o["h"], o["s"]
         key = json.dumps(h, sort_keys=True)
         pre = json.dumps(h[:-1], sort_keys=True)
-        conc = Conc(conc_ids[k % len(conc_ids)])
+        conc = Conc(conc_ids[k % len(conc_ids)]); conc.report_stuck = (rep.prop == "C04")
         k += 1
         if mode == "edges":
             refused = probes_of.get(pre, [])
@@ -215,14 +215,18 @@ def c04(tier, replay=None):
                  ("parse-d4", dict(DOCS="MCDocs", MaxHist=4, MaxId=3, CSLOTS="MCCSlots2", LSLOTS="MCLSlots1", CATS='{"", "k"}', NAMES='{"_x", "_y", "_z", "bad"}', MaxNames=1, MaxPkt=1, PVALS='{"s1"}'), "states"),
                  ("loopnull-d6", dict(CODES='{"a"}', CATS='{"NULL"}', VALS='{"s1"}', PVALS='{"s1", "s2"}', MaxNames=1, MaxLast=4, NAMES='{"_x"}', MaxPkt=1, SCRIPT="ScriptLoopN", MaxHist=6, CSLOTS="MCCSlots1", LSLOTS="MCLSlots1"), "states"),
                  ("twin-d2", dict(SCRIPT="ScriptTwin", MaxHist=2, MaxId=2, CODES='{"a", "b"}', NAMES='{"_x", "_y", "bad"}', CATS='{"NULL", "", "k"}', MaxNames=1, MaxPkt=1), "states"),
-                 ("two-cifs-d4", dict(CIFS='{"c1", "c2"}', MaxHist=4, CSLOTS="MCCSlots2", NAMES='{"_x", "_X", "bad"}', CODES='{"a", "A"}', CATS='{"NULL", ""}', MaxNames=1, MaxPkt=1), "states")]
+                 ("two-cifs-d4", dict(CIFS='{"c1", "c2"}', MaxHist=4, CSLOTS="MCCSlots2", NAMES='{"_x", "_X", "bad"}', CODES='{"a", "A"}', CATS='{"NULL", ""}', MaxNames=1, MaxPkt=1), "states"),
+                 # two categories that differ only in capitalisation / in a character that a pattern match would take for a
+                 # wildcard: categories are matched exactly, character by character
+                 ("cats-d4", dict(MaxHist=4, CODES='{"a"}', NAMES='{"_x", "_y"}', CATS='{"k", "k2"}', VALS='{"s1"}', PVALS='{"s1"}', MaxNames=1, MaxPkt=1, CSLOTS="MCCSlots1", LSLOTS="MCLSlots2"), "states")]
     else:
         plans = [("main-d5", dict(MaxHist=5), "states"),
                  ("nested-d3", dict(SCRIPT="ScriptNest", MaxHist=3, MaxId=4, MaxDepth=3, CODES='{"a", "b", "B", "bad"}'), "states"),
                  ("loop-d3", dict(SCRIPT="ScriptLoop", MaxHist=3, MaxLast=4, NAMES='{"_x", "_X", "_y", "_z", "bad"}', VALS='{"u", "s1", "L"}'), "states"),
                  ("parse-d5", dict(DOCS="MCDocs", MaxHist=5, MaxId=3, CSLOTS="MCCSlots2", LSLOTS="MCLSlots1", CATS='{"", "k"}', NAMES='{"_x", "_X", "_y", "bad"}', MaxNames=1, MaxPkt=1, PVALS='{"s1"}'), "states"),
                  ("twin-d3", dict(SCRIPT="ScriptTwin", MaxHist=3, MaxId=2, CODES='{"a", "b"}', NAMES='{"_x", "_y", "bad"}', CATS='{"NULL", "", "k"}', MaxNames=1, MaxPkt=1), "states"),
-                 ("two-cifs-d5", dict(CIFS='{"c1", "c2"}', MaxHist=5, NAMES='{"_x", "_X", "bad"}', CODES='{"a", "A"}', CATS='{"NULL", ""}', MaxNames=1, MaxPkt=1), "states")]
+                 ("two-cifs-d5", dict(CIFS='{"c1", "c2"}', MaxHist=5, NAMES='{"_x", "_X", "bad"}', CODES='{"a", "A"}', CATS='{"NULL", ""}', MaxNames=1, MaxPkt=1), "states"),
+                 ("cats-d5", dict(MaxHist=5, CODES='{"a"}', NAMES='{"_x", "_y"}', CATS='{"k", "k2", "NULL"}', VALS='{"s1"}', PVALS='{"s1"}', MaxNames=1, MaxPkt=1, CSLOTS="MCCSlots1", LSLOTS="MCLSlots2"), "states")]
     for name, params, mode in plans:
         cov, oc, jobs = run_config(rep, binary, name, params, mode, rnd=rnd)
         covs.append(cov); opcov.update(oc); alljobs += jobs
